@@ -647,6 +647,11 @@ func (h *c15Hist) sync() {
 // cache), optionally with a transient fault at one of the first statements of its copy
 func (h *c15Hist) copier(k, kind int) {
 	e := h.e
+	if !c15Writable(e.mode) {
+		// the copy stops at its first source query (the standing outage, not counted): a one-shot fault
+		// would strike the purge that follows, which is not what the op's fault means
+		k = -1
+	}
 	e.settle()
 	h.tick()
 	prim, before := e.snapP(), e.snapC()
